@@ -72,13 +72,41 @@ func RunChild(t *testing.T, test string, limit time.Duration, env ...string) (st
 	return string(out), err
 }
 
-// CleanStale removes temporary directories left behind by drivers or children of earlier runs that were killed.
+// CleanStale removes temporary directories left behind by C19 drivers or their children when an earlier run was
+// killed.  It touches nothing but what such a run created itself: directories directly in os.TempDir() whose name is
+// the exact prefix `go test` gives to t.TempDir() of one of the C19 test functions followed by digits only, owned by
+// the current user, and not modified for 20 minutes.
 func CleanStale() {
-	matches, _ := filepath.Glob(filepath.Join(os.TempDir(), "TestVerifC19*"))
-	for _, m := range matches {
-		if fi, err := os.Stat(m); err == nil && fi.IsDir() && time.Since(fi.ModTime()) > 20*time.Minute &&
-			strings.HasPrefix(filepath.Base(m), "TestVerifC19") {
-			os.RemoveAll(m)
+	prefixes := []string{"TestVerifC19Misc", "TestVerifC19KSChild", "TestVerifC19WatchChild", "TestVerifC19Signer", "TestVerifC19TLS",
+		"TestVerifC19HttpSig", "TestVerifC19WatchLoop", "TestVerifC19K8s", "TestVerifC19Rules", "TestVerifC19FS", "TestVerifC19FSLoopChild"}
+
+	entries, err := os.ReadDir(os.TempDir())
+	if err != nil {
+		return
+	}
+
+	for _, e := range entries {
+		if !e.IsDir() {
+			continue
 		}
+
+		own := false
+
+		for _, p := range prefixes {
+			if rest, ok := strings.CutPrefix(e.Name(), p); ok && rest != "" && strings.Trim(rest, "0123456789") == "" {
+				own = true
+			}
+		}
+
+		fi, err := e.Info()
+		if !own || err != nil || time.Since(fi.ModTime()) < 20*time.Minute {
+			continue
+		}
+
+		if st, ok := fi.Sys().(*syscall.Stat_t); !ok || int(st.Uid) != os.Getuid() {
+			continue
+		}
+
+		os.RemoveAll(filepath.Join(os.TempDir(), e.Name()))
 	}
 }
